@@ -28,7 +28,7 @@ def build_pool(seed, n):
     pool = list(gen_xonsh.XONSH_STMTS + gen_xonsh.PY_STMTS + gen_xonsh.UNTERMINATED)
     pool += rnd.sample(gen_py.SEEDS, 60)
     extra = ["x = p'/a' / pf'{b}'\n", "f!(a, b)\nwith! c:\n    d e\nx = 1\n", "$(echo! a b)\ny = 2\n", "x = f'{a!r:>{w}}' 'tail'\n", "range?\n", "f!(]\n", "with! x:\n", "f!(a,, b)\n",
-             "$(echo a.b?)\n", "x = 'a' b'b'\n", "if a:\n  b\n c\n", "x = (\n", "x = '''a\n", "é = 'ü'\n", "try:\n    pass\nexcept* A:\n    pass\n", "type X[T] = list[T]\n"]
+             "$(echo a.b?)\n", "$(lx?).split()\n", "x = [$(ax?) for a in $PATH]\n", "r = !(ls??)\n", "x = 'a' b'b'\n", "if a:\n  b\n c\n", "x = (\n", "x = '''a\n", "é = 'ü'\n", "try:\n    pass\nexcept* A:\n    pass\n", "type X[T] = list[T]\n"]
     pool += extra
     # literal families that share tokenizer/parser lookup keys (quote style, prefix letters) but differ in the other dimensions:
     # any module-level cache keyed too coarsely makes their outcome depend on which one was seen first
@@ -173,7 +173,7 @@ def run_history(acc, pool, refs, rnd, length, hid):
         if out.accepted:
             quiescence(acc, case)
             if rnd.random() < 0.08 and len(retained) < 40:
-                retained.append((i, out.value, ast.dump(out.value, include_attributes=True), node_ids(out.value)))
+                retained.append((i, out.value, base.stable_dump(out.value), node_ids(out.value)))
         if rnd.random() < 0.1:
             out2 = base.guarded(Mon.parse_string, s, mode="exec")
             acc.count("immediate_repeats")
@@ -182,7 +182,7 @@ def run_history(acc, pool, refs, rnd, length, hid):
     # aliasing: retained trees unchanged and pairwise disjoint
     for k, (i, tree, dump, ids) in enumerate(retained):
         acc.count("retained_trees_rechecked")
-        if ast.dump(tree, include_attributes=True) != dump:
+        if base.stable_dump(tree) != dump:
             acc.violation("retained-tree-changed", {"history_seed": hid, "src": pool[i]}, {})
         for (j, _, _, ids2) in retained[k + 1 :]:
             shared = ids & ids2
